@@ -40,7 +40,7 @@ func zeroKeys(t *GT) {
 func init() {
 	register(&PropDef{
 		ID:          "C20",
-		Rule:        "GenerateRandomExpr at levels 0..40 under a scripted rand.Source (rand.Intn(n) = draw mod n, checked at start-up against math/rand), every combination of EnableVariable/EnableCondition/EnableTryEval, both result types, variable lists passed in fixed order: Go's expression (parsed) and reported result are compared with the model `generate` on the same draws; in addition Go's expression is compiled and evaluated by Go (Eval without DNE variables, TryEval with them) and must return the reported result without error; scripted thin chains through levels 64..80; DNE variables left unbound AND bound to the DNE value through the library's own context; non-trivial = level >= 1; distinct = distinct (options, level, draws)",
+		Rule:        "GenerateRandomExpr at levels 0..40 under a scripted rand.Source (rand.Intn(n) = draw mod n, checked at start-up against math/rand), every combination of EnableVariable/EnableCondition/EnableTryEval, both result types, variable lists passed in fixed order: Go's expression (parsed) and reported result are compared with the model `generate` on the same draws; in addition Go's expression is compiled and evaluated by Go (Eval without DNE variables, TryEval with them) and must return the reported result without error; scripted thin chains through levels 64..80; DNE variables left unbound AND bound to the DNE value through the library's own context; a third of the cases with one key assigned by hand past the number of variables before the bulk registration; non-trivial = level >= 1; distinct = distinct (options, level, draws)",
 		Assumptions: []string{"math/rand.Intn on a Source returning v<<32 with v < 2^20 yields v mod n (verified by a sweep in every run)"},
 		Behav:       []int{22}, Fidelity: []int{21, 23}, CodeText: map[int]string{21: "generated expression differs from the model's on the same draws", 22: "reported result differs from the model's", 23: "text of the generated expression differs from the model's text of the generated tree"},
 		Gen: func(c *RunCtx) []*Batch {
